@@ -95,7 +95,7 @@ def shard(col, shard_i, ngrammars, ninputs, full):
             texts = [t[:40] for t in G.gen_inputs(rng, g, ninputs)]
             col.count('grammar.string-leaves')
         else:
-            g = G.gen_grammar(rng, G.GenCfg(cuts=0.08), depth=rng.choice([2, 3, 3]))
+            g = G.gen_grammar(rng, G.GenCfg(cuts=0.08, assoc=0.02), depth=rng.choice([2, 3, 3]))
             texts = [t[:40] for t in G.gen_inputs(rng, g, ninputs)]
             col.count('grammar.plain')
         # @nomemo on some rules (never stored, re-evaluated on every invocation) and, for a third of the grammars, a semantics
